@@ -97,7 +97,7 @@ impl Scenario for TimerBatches {
         false
     }
     fn quick_runs(&self, _f: &str) -> u64 {
-        6000
+        24000
     }
     fn chunk(&self) -> u64 {
         128
